@@ -3,7 +3,8 @@ PROP = dict(
         pkg="c14", level="fault_enumeration",
         technique=("crash-image enumeration over generated histories (rapid state machine vs reference model): every cut offset and every "
                    "corrupted byte of the un-acknowledged tail of the newest log file, every file-system step of the cleanup (hook H1), "
-                   "real ENOSPC on a 64 KiB tmpfs"),
+                   "real ENOSPC on a 64 KiB tmpfs, failure of every file-system operation of the store at a drawn occurrence with a drawn "
+                   "partial effect (fault-injecting vfs.Default + kernel-made EMFILE/EFBIG/rename failures) in histories that continue"),
         level_text=("Fault enumeration: for every generated history append/prune/flush/close/reopen/crash the directory left by EVERY flush is "
                     "re-opened as it is, truncated at EVERY byte offset past the previously synced size and with EVERY such byte corrupted "
                     "(all bits; one bit), and the recovered contents are compared with an explicit model (acknowledged batches in order, "
@@ -11,18 +12,36 @@ PROP = dict(
                     "stores must accept and retain a further append. The fault space per history is enumerated exhaustively; the histories "
                     "themselves are sampled (thousands), so absence of defects is shown for the enumerated images only. The model of a "
                     "crash is 'a prefix of the bytes written after the last fsync, or one corrupted byte in them'; bytes before the last "
-                    "acknowledged flush are assumed durable and intact."),
+                    "acknowledged flush are assumed durable and intact. Operation failures are sampled, not enumerated: per history 1-2 faults "
+                    "per faulty call over the kinds create / dir-sync / write (nothing, strict prefix, everything) / sync / close / remove / "
+                    "dir-close / mkdirall / list / stat / open / read / read-close / opendir through the vfs wrapper and watermark-temp open, "
+                    "watermark-temp write (k of 35 bytes), watermark rename, directory sync, log creation and tail-repair open through the "
+                    "kernel; after a reported failure the batch must be absent or complete (live store, crash image, reopen), acknowledged "
+                    "data intact, pruned data dead, the next Open and the next Flush succeed (fail-stop after a failed tail repair accepted)."),
         rule=("TestPropCrashImages: rapid history of 8-45 ops over 8 entry kinds at heights W..W+3 (W = prune watermark), prune, flush, "
               "close+reopen, crash+continue (as-is or torn image); TestPropCleanupSequence: >=256 prune-carrying flushes in one session so "
               "the watermark write, rotation and obsolete-file removal happen (with hook H1: one image per file-system step, temp watermark "
               "at every length, EOF trailer at every offset); TestPropBlockStraddle: enumerated batches placed on a 32 KiB block boundary of "
-              "the record format; TestPropEnospc: genuine ENOSPC from a full 64 KiB tmpfs in log append / watermark write. Non-trivial = "
+              "the record format; TestPropEnospc: genuine ENOSPC from a full 64 KiB tmpfs in log append / watermark write; "
+              "TestPropFsFaults: histories (3/4 prefilled with 236-255 quiet prune-carrying flushes and older log files so that watermark "
+              "write, rotation and obsolete-file removal are 1-20 prune records away, refilled after restarts) of append/prune/flush/"
+              "close+reopen/crash+continue in which flushes, closes and opens run under a drawn fault plan (operation kind from the "
+              "operations the call is expected to perform, grouped by step append / watermark / rotation / removal / shutdown, occurrence "
+              "index 0-2, partial effect drawn; 1/6 drawn from all kinds; 1/6 of the write/sync/close faults also block the tail repair), "
+              "and continue afterwards with further flushes, faults, restarts and crash images. Non-trivial = "
               "multi-record batch enumerated together with (append above a prune in the same file | append at a pruned height | history "
-              "continued on a torn image); cleanup really ran; batch straddles a block; a Flush really failed. Distinct = SHA-256 of the "
+              "continued on a torn image); cleanup really ran; batch straddles a block; a Flush really failed; a fault was injected and a "
+              "non-empty flush succeeded afterwards. Distinct = SHA-256 of the "
               "rendered call sequence. info.images counts re-opened crash images."),
         assumptions=["fsync makes everything written before it durable and intact; only bytes written after the last acknowledged flush can be lost or damaged",
                      "a crash leaves a prefix of the newest log file (no reordering of writes inside one file), rename is atomic",
-                     "tmpfs page-granular ENOSPC stands in for a full disk; fsync failures as such are not injected (vfs.Default is hard-wired)",
+                     "tmpfs page-granular ENOSPC stands in for a full disk",
+                     "the store reaches the log files through the package variable vfs.Default, which TestPropFsFaults replaces by a wrapper for the duration of a case; "
+                     "the watermark and the tail repair use package os directly: there only what the kernel can be made to fail from inside the process is injected "
+                     "(open-type calls: EMFILE; the watermark temp write: EFBIG after k bytes; the rename: obstructed destination) - os-level fsync, close, fstat, "
+                     "ftruncate and the ReadFile of the watermark are never failed",
+                     "a store whose tail repair failed (double fault) may refuse all further writes until restarted (fail-stop is not counted as 'log unusable'); "
+                     "an Open that runs under a fault may fail, the next one must succeed",
                      "consensus heights are >= 1 (consensus.go starts at chain height + 1); height 0 is never appended",
                      "Pebble's record reader/writer (CRC, chunk framing) is trusted; juno's use of it is what is checked"],
         runs=[dict(run="^Test(Prop|Known)")],
